@@ -33,6 +33,8 @@ func main() {
 		t3.Workload{JournalMode: "wal", PageSize: 4096, CacheSize: 8, Steps: 40, Seed: 16, ModeSwitch: true, Replica: true})
 	ws = append(ws, t3.Workload{JournalMode: "delete", PageSize: 65536, CacheSize: 20, Seed: 21, LockPage: true},
 		t3.Workload{JournalMode: "wal", PageSize: 65536, CacheSize: 20, Seed: 22, LockPage: true, Replica: true})
+	ws = append(ws, t3.Workload{JournalMode: "delete", PageSize: 4096, CacheSize: 5000, Steps: 60, Seed: 31, AllocFree: true, Replica: true},
+		t3.Workload{JournalMode: "wal", PageSize: 1024, CacheSize: 5000, Steps: 60, Seed: 32, AllocFree: true, Replica: true})
 	only := os.Getenv("T3_ONLY")
 	for i, w := range ws {
 		if only != "" && only != fmt.Sprint(i) {
